@@ -15,7 +15,10 @@ PN      == <<"p", "q", "r", "id">> \* one parameter name per path position
 
 Named(b) == [i \in 1..Len(b) |-> IF b[i] = PARAM THEN ParamSeg(PN[i]) ELSE b[i]]
 Bodies   == {Named(b) : b \in SeqsUpTo(PLits \cup {PARAM}, MaxBody)}
+\* ... plus the catch-all "*" (a wildcard written as host label) and two patterns on a host with one more label whose
+\* text is also a path literal ("a.com.x" next to "a.com/x": a host label and a path segment of the same text)
 Patterns == {Mk(HostA, b) : b \in Bodies} \cup {Mk(HostA, Append(b, WildSeg)) : b \in Bodies}
+            \cup {Mk(<<WildSeg>>, <<>>), Mk(<<"a", "com", "x">>, <<>>), Mk(<<"a", "com", "x">>, <<WildSeg>>)}
 
 DeclSeq == SetToSeq({[m |-> m, p |-> p] : m \in Methods, p \in Patterns})
 NDecl   == Len(DeclSeq)
